@@ -24,7 +24,7 @@ PROPS = {
         "design_ref": "DESIGN.md §4 C01",
         "rule": "case = (pool size, multiplier, wake mode, producer programs, gate plan, perturbation) from the seeded generator; non-trivial = at least two tasks were handed to the pool; distinct by full spec",
         "required_classes": ["pool0", "pool1-8", "pool9+", "poll", "wake", "gated-dtor", "free", "fut", "futkids", "pool-task-producer", "multi-producer",
-                             "bulk>16", "mult1", "script:dtor-hint-race", "post-join-drain-ran-a-task", "ran:worker", "ran:caller-inline", "ran:pool-dtor"],
+                             "bulk>16", "mult1", "script:dtor-hint-race", "post-join-drain-ran-a-task", "script:dtor-zero-thread-queue", "zero-thread-dtor-drained", "ran:worker", "ran:caller-inline", "ran:pool-dtor"],
         "assumptions": _A,
         "runs": {
             "quick": [{"config": "plain", "shards": 16, "args": {"n": 400}}, {"config": "tsan", "shards": 16, "args": {"n": 64, "scripted": 8}}, {"config": "asan", "shards": 16, "args": {"n": 128, "scripted": 8}}],
@@ -64,7 +64,7 @@ PROPS = {
         "rule": "case = (pool, producer programs, resize sequence, perturbation) or a scripted interleaving spec; non-trivial = at least one resize ran against at least two tasks (random) / the gate was reached (scripted); distinct by full spec",
         "required_classes": ["ringbulk", "noring", "shrink", "noshrink", "resize:grow", "resize:shrink", "resize:zero", "setSignalingWake", "parallel_for", "future",
                              "shared-cts", "script:push-after-shrink", "script:ringbulk-after-join", "script:ringbulk-after-stop", "script:placed-after-stop",
-                             "script:fq-after-resize0", "resize-drained", "gate-reached", "ran:resize"],
+                             "script:fq-after-resize0", "script:shrink-before-ringcount-load", "zero-thread-dtor-drained", "resize-drained", "gate-reached", "ran:resize"],
         "assumptions": _A,
         "runs": {
             "quick": [{"config": "plain", "shards": 8}, {"config": "tsan", "shards": 8, "args": {"n": 64, "scripted": 16}}, {"config": "asan", "shards": 8, "args": {"n": 96, "scripted": 16}}],
